@@ -6,6 +6,16 @@ def parseAxis (j : Json) : Option Axis := do
   some { n := ← fNat? j "n", s := ← fNat? j "s", ps := ← fNat? j "ps", pad := ← fNat? j "pad",
          ppad := ← fNat? j "ppad", sh := ← fNat? j "sh" }
 
+/-- optional physical coordinates of a `SimpleOpenGridAtLevel` axis: real-valued shift and pixel distance -/
+def parsePhys (j : Json) : Option (Rat × Rat) :=
+  match fRat? j "csh", fRat? j "cdist" with
+  | some a, some b => some (a, b)
+  | _, _ => none
+
+/-- `SimpleOpenGridAtLevel.index2coord`: `(i + shifts + 1/2) / (n + 2 shifts) * ((n + 2 shifts) * distances)` -/
+def simpleCoord (n : Nat) (csh cdist : Rat) (i : Nat) : Rat :=
+  ((i : Rat) + csh + 1 / 2) / ((n : Rat) + 2 * csh) * (((n : Rat) + 2 * csh) * cdist)
+
 def natLists? (j : Json) : Option (List (List Nat)) := listOf? natList? j
 
 def jNatss (l : List (List Nat)) : Json := jList jNats l
@@ -14,7 +24,7 @@ def parseOrd (s : String) : Option FlatOrd :=
   if s == "serial" then some .serial else if s == "nest" then some .nest else none
 
 /-- everything the code computes for every index of one level of a (product) grid -/
-def levelDump (ax : List Axis) (hasChildren hasParent : Bool) (win : List Nat) : Json :=
+def levelDump (ax : List Axis) (phys : List (Option (Rat × Rat))) (hasChildren hasParent : Bool) (win : List Nat) : Json :=
   let shape := ax.map (·.n)
   let items := (mgrid shape).map fun idx =>
     jObj [("i", jNats idx),
@@ -22,12 +32,16 @@ def levelDump (ax : List Axis) (hasChildren hasParent : Bool) (win : List Nat) :
           ("parent", if hasParent then jNats (parentVec ax idx) else Json.null),
           ("refined", Json.bool (hasChildren && isRefinedVec ax idx)),
           ("nbh", jNatss (neighborhood ax win idx)),
-          ("coord", jRats (List.zipWith (fun (a : Axis) (i : Nat) => index2coord (K := Rat) a.n a.sh (i : Rat)) ax idx)),
+          ("coord", jRats (List.zipWith (fun (ap : Axis × Option (Rat × Rat)) (i : Nat) =>
+              match ap.2 with
+              | some (csh, cdist) => simpleCoord ap.1.n csh cdist i
+              | none => index2coord (K := Rat) ap.1.n ap.1.sh (i : Rat)) (List.zip ax phys) idx)),
           ("rt", jInts (List.zipWith (fun (a : Axis) (i : Nat) =>
               coord2index a.n a.sh (index2coord (K := Rat) a.n a.sh (i : Rat))) ax idx))]
   jObj [("items", Json.arr items.toArray),
         ("refinedIndices", if hasChildren then jNatss (refinedIndices ax) else Json.null),
-        ("volume", jRat (volume (K := Rat) ax))]
+        ("volume", jRat (if phys.all Option.isSome && !phys.isEmpty then (phys.map fun p => (p.getD (0, 1)).2).foldl (· * ·) 1
+                         else volume (K := Rat) ax))]
 
 def flatDump (g : FlatLevel) (hasChildren hasParent : Bool) (win : List Nat) : Json :=
   let shape := g.shape
@@ -53,7 +67,9 @@ def handle (j : Json) : Json :=
     | _, _, _ => jErr "bad-args"
   | some "level" =>
     match (field? j "axes").bind (listOf? parseAxis), fBool? j "hasChildren", fBool? j "hasParent", fNatList? j "win" with
-    | some ax, some hc, some hp, some win => levelDump ax hc hp win
+    | some ax, some hc, some hp, some win =>
+      let phys := ((field? j "axes").bind getArr?).getD [] |>.map parsePhys
+      levelDump ax phys hc hp win
     | _, _, _, _ => jErr "bad-args"
   | some "flat" =>
     match (fStr? j "o").bind parseOrd, (field? j "axes").bind (listOf? parseAxis), (field? j "bases").bind natLists?,
